@@ -9,17 +9,23 @@
 package main
 
 import (
+	"bufio"
 	"bytes"
+	"crypto/tls"
+	"crypto/x509"
 	"encoding/json"
+	"errors"
 	"fmt"
 	"io"
 	"net"
 	"net/http"
 	"net/http/httptest"
 	"os"
+	"sort"
 	"strings"
 	"time"
 
+	"github.com/google/martian/v3/mitm"
 	"github.com/google/martian/v3/trafficshape"
 	"github.com/google/martian/v3/zzverif/vrt"
 
@@ -49,25 +55,34 @@ type shape struct {
 }
 
 type scenario struct {
-	Name     string  `json:"name"`
-	Shapes   []shape `json:"shapes"`
-	N        int     `json:"n"`     // response body size
-	R        int     `json:"r"`     // range start (0 = full 200)
-	Chunk    int     `json:"chunk"` // body reader chunk size (0 = whole)
-	Match    bool    `json:"match"`
-	Conns    int     `json:"conns"` // connections, run one after the other unless Concurrent
-	Conc     bool    `json:"conc,omitempty"`
-	Barrier  bool    `json:"barrier,omitempty"` // concurrent connections: the origin answers only once every connection's request has arrived, so that all handlers start writing their shaped responses from the same instant
-	Reconf   string  `json:"reconf,omitempty"`  // "", rejected-before, accepted-after-accept, accepted-in-flight
-	Reconf2  string  `json:"reconf_cfg,omitempty"`
-	Latency  int64   `json:"latency,omitempty"`
-	Bound    int     `json:"bound,omitempty"`
-	TBound   int     `json:"tbound,omitempty"` // thorough bound when it is not Bound+1
-	MatchIdx int     `json:"matchidx,omitempty"`
-	Seq      []bool  `json:"seq,omitempty"`      // keep-alive: the requests one client connection sends in turn (true = the URL the shape names, false = another URL)
-	ReqClose bool    `json:"reqclose,omitempty"` // the request carries "Connection: close" (the proxy then marks the response accordingly, after the modifiers)
-	Teardown string  `json:"teardown,omitempty"` // "wrapped-first": after the exchange the wrapped (inner) connection is closed before the shaped one, so closing the shaped connection reports an error
-	HeadPad  int     `json:"headpad,omitempty"`  // the response head carries an X-Pad header of this many bytes (heads larger than the proxy's 4096-byte write buffer reach the shaped connection in several writes) // index of the shape whose url_regex matches the requested URL (the others name other URLs)
+	Name        string  `json:"name"`
+	Shapes      []shape `json:"shapes"`
+	N           int     `json:"n"`     // response body size
+	R           int     `json:"r"`     // range start (0 = full 200)
+	Chunk       int     `json:"chunk"` // body reader chunk size (0 = whole)
+	Match       bool    `json:"match"`
+	Conns       int     `json:"conns"` // connections, run one after the other unless Concurrent
+	Conc        bool    `json:"conc,omitempty"`
+	Barrier     bool    `json:"barrier,omitempty"` // concurrent connections: the origin answers only once every connection's request has arrived, so that all handlers start writing their shaped responses from the same instant
+	Reconf      string  `json:"reconf,omitempty"`  // "", rejected-before, accepted-after-accept, accepted-in-flight
+	Reconf2     string  `json:"reconf_cfg,omitempty"`
+	Latency     int64   `json:"latency,omitempty"`
+	Bound       int     `json:"bound,omitempty"`
+	TBound      int     `json:"tbound,omitempty"` // thorough bound when it is not Bound+1
+	MatchIdx    int     `json:"matchidx,omitempty"`
+	SeqFail     []bool  `json:"seqfail,omitempty"`      // keep-alive: SeqFail[k] = the round trip of request k fails (the proxy answers 502 itself)
+	Seq         []bool  `json:"seq,omitempty"`          // keep-alive: the requests one client connection sends in turn (true = the URL the shape names, false = another URL)
+	ReqClose    bool    `json:"reqclose,omitempty"`     // the request carries "Connection: close" (the proxy then marks the response accordingly, after the modifiers)
+	Teardown    string  `json:"teardown,omitempty"`     // "wrapped-first": after the exchange the wrapped (inner) connection is closed before the shaped one, so closing the shaped connection reports an error
+	Via         string  `json:"via,omitempty"`          // "": the request is sent to the proxy directly; "connect-plain": through a CONNECT tunnel the proxy intercepts, in clear; "mitm-tls": through an intercepted CONNECT tunnel, inside TLS (the proxy wraps the decrypted side in a second shaped connection)
+	Chunked     bool    `json:"chunked,omitempty"`      // the response has no Content-Length (chunked framing on the wire): offsets count the bytes after the head as they are on the wire
+	DefUp       int64   `json:"defup,omitempty"`        // default.bandwidth.up of the (valid) configuration
+	DefDown     int64   `json:"defdown,omitempty"`      // default.bandwidth.down
+	Abort       int     `json:"abort,omitempty"`        // the client goes away after this many body bytes (+1: 1 = right after the head)
+	PClose      bool    `json:"pclose,omitempty"`       // Proxy.Close() is called while the shaped response is in flight
+	PCloseEarly bool    `json:"pclose_early,omitempty"` // ... while the round trip is still under way (the proxy then marks the response "Connection: close" itself)
+	Up          int     `json:"up,omitempty"`           // tunnel scenarios: bytes the client sends to the tunnel's target
+	HeadPad     int     `json:"headpad,omitempty"`      // the response head carries an X-Pad header of this many bytes (heads larger than the proxy's 4096-byte write buffer reach the shaped connection in several writes) // index of the shape whose url_regex matches the requested URL (the others name other URLs)
 }
 
 type finding struct{ Sig, Desc string }
@@ -107,6 +122,45 @@ func (r *stallReader) Read(p []byte) (int, error) {
 	return n, nil
 }
 
+// cntReader counts what a client has taken off its connection.
+type cntReader struct {
+	r io.Reader
+	n int
+}
+
+func (c *cntReader) Read(p []byte) (int, error) {
+	n, err := c.r.Read(p)
+	c.n += n
+	return n, err
+}
+
+// bufConn lets a TLS client read through the bufio.Reader that consumed the CONNECT response.
+type bufConn struct {
+	net.Conn
+	r *bufio.Reader
+}
+
+func (b *bufConn) Read(p []byte) (int, error) { return b.r.Read(p) }
+
+var (
+	ca      *x509.Certificate
+	mitmCfg *mitm.Config
+)
+
+func initMITM() {
+	if mitmCfg != nil {
+		return
+	}
+	c, priv, err := mitm.NewAuthority("verif", "verif", 24*time.Hour)
+	if err != nil {
+		panic(err)
+	}
+	ca = c
+	if mitmCfg, err = mitm.NewConfig(c, priv); err != nil {
+		panic(err)
+	}
+}
+
 type chunkReader struct {
 	b     []byte
 	chunk int
@@ -137,6 +191,19 @@ func configJSON(shapes []shape, latency int64) string {
 	return string(b)
 }
 
+// configOf renders the (valid) configuration of a scenario, default section included.
+func configOf(sc scenario) string {
+	if sc.DefUp == 0 && sc.DefDown == 0 {
+		return configJSON(sc.Shapes, sc.Latency)
+	}
+	def := map[string]interface{}{"bandwidth": map[string]int64{"up": sc.DefUp, "down": sc.DefDown}}
+	if sc.Latency > 0 {
+		def["latency"] = sc.Latency
+	}
+	b, _ := json.Marshal(map[string]interface{}{"trafficshape": map[string]interface{}{"shapes": sc.Shapes, "default": def}})
+	return string(b)
+}
+
 type seqResp struct {
 	status   int
 	body     int
@@ -157,6 +224,9 @@ type connObs struct {
 	start    time.Duration
 	end      time.Duration
 	done     bool
+	headLen  int // bytes of the response head as received
+	wire     int // bytes received after the head, as they were on the wire (chunk framing included)
+	tunnel   string
 }
 
 // expectation for one connection according to the reference model
@@ -165,6 +235,7 @@ type expect struct {
 	cut      bool          // connection closed by a close action
 	minDelay time.Duration // sum of the halts that apply
 	thrDelay time.Duration // sum over throttled intervals of (bytes/bandwidth - one drain interval)
+	maxDelay time.Duration // the most the configuration explains: halts that applied (or may have, at the very end of the body) + per throttled interval bytes/bandwidth + two drain intervals + the same for the global bandwidth
 }
 
 // model evaluates the shapes for a response of n bytes starting at range start r; counts is the mutable count state.
@@ -192,6 +263,7 @@ func model(sh *shape, counts map[string]int64, n, r int) expect {
 			acts[j], acts[j-1] = acts[j-1], acts[j]
 		}
 	}
+	haltsAt := map[int64]time.Duration{} // required delay of the halts that applied, per offset
 	for _, a := range acts {
 		if a.b < int64(r) || a.b > end {
 			continue
@@ -200,18 +272,30 @@ func model(sh *shape, counts map[string]int64, n, r int) expect {
 		if counts[key] == 0 {
 			continue
 		}
+		if a.kind == "halt" && a.b == end {
+			// a halt after the last body byte delays nothing a client can see: allowed, not required (its count is
+			// left alone: scenarios do not reuse such a shape for a second response)
+			e.maxDelay += time.Duration(sh.Halts[a.idx].Dur) * time.Millisecond
+			continue
+		}
 		if counts[key] > 0 {
 			counts[key]--
 		}
 		if a.kind == "halt" {
-			e.minDelay += time.Duration(sh.Halts[a.idx].Dur) * time.Millisecond
+			d := time.Duration(sh.Halts[a.idx].Dur) * time.Millisecond
+			e.minDelay += d
+			e.maxDelay += d
+			haltsAt[a.b] += d
 			continue
 		}
 		e.cut = true
 		e.bodyLen = int(a.b) - r
+		// halts at the very offset of the close: the statement does not order the two, the pause is allowed, not required
+		e.minDelay -= haltsAt[a.b]
 		break
 	}
-	// throttle lower bound: bytes inside a throttled interval / bandwidth - one drain interval
+	delivered := int64(r + e.bodyLen)
+	// throttle bounds: bytes inside a throttled interval / bandwidth - one drain interval at least, + two at most
 	for _, t := range sh.Throttles {
 		var a, b int64 = 0, -1
 		parts := strings.Split(t.Bytes, "-")
@@ -223,7 +307,6 @@ func model(sh *shape, counts map[string]int64, n, r int) expect {
 		if lo < int64(r) {
 			lo = int64(r)
 		}
-		delivered := int64(r + e.bodyLen)
 		if hi < 0 || hi > delivered {
 			hi = delivered
 		}
@@ -232,12 +315,22 @@ func model(sh *shape, counts map[string]int64, n, r int) expect {
 			if secs > 0 {
 				e.thrDelay += time.Duration(secs * float64(time.Second))
 			}
+			e.maxDelay += time.Duration((float64(hi-lo)/float64(t.BW) + 2) * float64(time.Second))
 		}
+	}
+	if sh.MaxBW > 0 {
+		e.maxDelay += time.Duration((float64(delivered-int64(r))/float64(sh.MaxBW) + 2) * float64(time.Second))
 	}
 	return e
 }
 
 func run(sc scenario) (body func(), check func(r *vrt.Result) []finding) {
+	if sc.Name == "tunnel" {
+		return runTunnel(sc)
+	}
+	if sc.Via != "" {
+		initMITM()
+	}
 	var obs []*connObs
 	var cfgStatus, reconfStatus int
 	var bucketsBefore, bucketsAfterCfg, bucketsAfterClose int
@@ -253,6 +346,9 @@ func run(sc scenario) (body func(), check func(r *vrt.Result) []finding) {
 	body = func() {
 		obs = nil
 		w := pworld.NewWorld()
+		if sc.Via != "" {
+			w.Proxy.SetMITM(mitmCfg)
+		}
 		var tsl *trafficshape.Listener
 		w.Wrap = func(l net.Listener) net.Listener {
 			tsl = trafficshape.NewListener(l)
@@ -260,7 +356,13 @@ func run(sc scenario) (body func(), check func(r *vrt.Result) []finding) {
 		}
 		full := pattern(sc.R + sc.N)
 		arrived := 0
+		reqNo := map[string]int{}
 		w.Respond = func(req *http.Request) (*http.Response, error) {
+			k := reqNo[req.Header.Get("X-Conn")]
+			reqNo[req.Header.Get("X-Conn")]++
+			if k < len(sc.SeqFail) && sc.SeqFail[k] {
+				return nil, errors.New("dial tcp 192.0.2.1:80: connect: connection refused")
+			}
 			if sc.Barrier {
 				arrived++
 				vrt.Bump()
@@ -272,6 +374,10 @@ func run(sc scenario) (body func(), check func(r *vrt.Result) []finding) {
 			}
 			res.Body = io.NopCloser(&chunkReader{b: full[sc.R:], chunk: sc.Chunk})
 			res.ContentLength = int64(sc.N)
+			if sc.Chunked {
+				res.ContentLength = -1
+				res.TransferEncoding = []string{"chunked"}
+			}
 			if sc.R > 0 {
 				res.StatusCode = 206
 				res.Header.Set("Content-Range", fmt.Sprintf("bytes %d-%d/%d", sc.R, sc.R+sc.N-1, sc.R+sc.N))
@@ -288,7 +394,7 @@ func run(sc scenario) (body func(), check func(r *vrt.Result) []finding) {
 			h.ServeHTTP(rec, req)
 			return rec.Code
 		}
-		cfgStatus = post(configJSON(sc.Shapes, sc.Latency))
+		cfgStatus = post(configOf(sc))
 		if sc.Reconf == "rejected-before" {
 			reconfStatus = post(sc.Reconf2)
 		}
@@ -296,9 +402,17 @@ func run(sc scenario) (body func(), check func(r *vrt.Result) []finding) {
 		// let a little virtual time pass, as it always does in reality
 		vrt.Sleep(10 * time.Millisecond)
 		bucketsAfterCfg = countBuckets()
-		url := matchURL
-		if !sc.Match {
-			url = otherURL
+		// the request as the client writes it: absolute-form to the proxy, origin-form inside a tunnel
+		reqFor := func(match bool, i int, extra string) string {
+			host, path := "example", "/example"
+			if !match {
+				host, path = "other", "/else"
+			}
+			tgt := "http://" + host + path
+			if sc.Via != "" {
+				tgt = path
+			}
+			return "GET " + tgt + " HTTP/1.1\r\nHost: " + host + "\r\nX-Conn: " + fmt.Sprint(i) + "\r\n" + extra + "\r\n"
 		}
 		client := func(i int, gate *vrt.Gate) {
 			o := &connObs{}
@@ -310,19 +424,48 @@ func run(sc scenario) (body func(), check func(r *vrt.Result) []finding) {
 				return
 			}
 			defer cl.C.Close()
+			var rw io.Writer = cl.C
+			cr := &cntReader{r: cl.C}
+			br := bufio.NewReader(cr)
+			consumed := func() int { return cr.n - br.Buffered() }
 			if gate != nil {
 				gate.Wait()
 			}
+			if sc.Via != "" {
+				fmt.Fprintf(rw, "CONNECT example:443 HTTP/1.1\r\nHost: example:443\r\nX-Conn: %d\r\n\r\n", i)
+				res, err := http.ReadResponse(br, &http.Request{Method: "CONNECT"})
+				if err != nil {
+					o.tunnel = "connect: " + err.Error()
+					return
+				}
+				if res.StatusCode != 200 {
+					o.tunnel = fmt.Sprint("connect: status ", res.StatusCode)
+					return
+				}
+				if sc.Via == "mitm-tls" {
+					roots := x509.NewCertPool()
+					roots.AddCert(ca)
+					tc := tls.Client(&bufConn{Conn: cl.C, r: br}, &tls.Config{ServerName: "example", RootCAs: roots})
+					if err := tc.Handshake(); err != nil {
+						o.tunnel = "tls: " + err.Error()
+						return
+					}
+					rw = tc
+					cr = &cntReader{r: tc}
+					br = bufio.NewReader(cr)
+				}
+			}
 			if len(sc.Seq) > 0 {
 				o.start = vrt.Now()
-				for _, match := range sc.Seq {
-					u := otherURL
-					if match {
-						u = matchURL
+				for k, match := range sc.Seq {
+					if k == 1 && sc.Reconf == "accepted-between-requests" {
+						// a new configuration is accepted while this connection is idle between two requests
+						reconfStatus = post(sc.Reconf2)
+						vrt.Sleep(10 * time.Millisecond)
 					}
 					t0 := vrt.Now()
-					cl.Send("GET " + u + " HTTP/1.1\r\nHost: example\r\nX-Conn: " + fmt.Sprint(i) + "\r\n\r\n")
-					res, err := http.ReadResponse(cl.BR, &http.Request{Method: "GET"})
+					io.WriteString(rw, reqFor(match, i, ""))
+					res, err := http.ReadResponse(br, &http.Request{Method: "GET"})
 					if err != nil {
 						o.seq = append(o.seq, seqResp{err: "head: " + err.Error(), elapsed: vrt.Now() - t0})
 						break
@@ -341,24 +484,32 @@ func run(sc scenario) (body func(), check func(r *vrt.Result) []finding) {
 				return
 			}
 			o.start = vrt.Now()
-			rng := ""
-			if sc.R > 0 {
-				rng = fmt.Sprintf("Range: bytes=%d-\r\n", sc.R)
-			}
 			extra := ""
 			if sc.ReqClose {
 				extra = "Connection: close\r\n"
 			}
-			cl.Send("GET " + url + " HTTP/1.1\r\nHost: example\r\nX-Conn: " + fmt.Sprint(i) + "\r\n" + extra + rng + "\r\n")
-			res, err := http.ReadResponse(cl.BR, &http.Request{Method: "GET"})
+			if sc.R > 0 {
+				extra += fmt.Sprintf("Range: bytes=%d-\r\n", sc.R)
+			}
+			io.WriteString(rw, reqFor(sc.Match, i, extra))
+			c0 := consumed()
+			res, err := http.ReadResponse(br, &http.Request{Method: "GET"})
 			if err != nil {
 				o.err = "head: " + err.Error()
 				o.end = vrt.Now()
 				return
 			}
 			o.status, o.head = res.StatusCode, res.Header
+			o.headLen = consumed() - c0
+			if sc.Abort > 0 {
+				// the client loses interest: it reads a part of the body and goes away
+				io.ReadFull(res.Body, make([]byte, sc.Abort-1))
+				o.end = vrt.Now()
+				return
+			}
 			b, err := io.ReadAll(res.Body)
 			o.body = b
+			o.wire = consumed() - c0 - o.headLen
 			o.complete = err == nil
 			if err != nil && err != io.ErrUnexpectedEOF {
 				o.err = "body: " + err.Error()
@@ -403,6 +554,20 @@ func run(sc scenario) (body func(), check func(r *vrt.Result) []finding) {
 				vrt.Sleep(time.Second)
 			}
 			ths = append(ths, vrt.GoNamed("client1", func() { client(1, nil) }))
+		case sc.Reconf == "rejected-after-accept" || sc.Reconf == "rejected-in-flight":
+			// the invalid configuration arrives when the connection is already accepted (before its request, or while its
+			// shaped response is in flight): the connection goes on being shaped by the configuration it was accepted under
+			g := &vrt.Gate{}
+			ths = append(ths, vrt.GoNamed("client0", func() { client(0, g) }))
+			vrt.WaitQuiescent()
+			if sc.Reconf == "rejected-after-accept" {
+				reconfStatus = post(sc.Reconf2)
+				vrt.Sleep(10 * time.Millisecond)
+				g.Open()
+			} else {
+				g.Open()
+				ths = append(ths, vrt.GoNamed("reconf", func() { reconfStatus = post(sc.Reconf2) }))
+			}
 		case sc.Reconf == "accepted-after-accept" || sc.Reconf == "accepted-in-flight":
 			// connection 0 is accepted under the first configuration; the second configuration is posted
 			// after the accept (before the request is sent) or while the shaped response is in flight
@@ -422,6 +587,20 @@ func run(sc scenario) (body func(), check func(r *vrt.Result) []finding) {
 			}
 			// a connection accepted afterwards gets the new configuration
 			ths = append(ths, vrt.GoNamed("client1", func() { client(1, nil) }))
+		case sc.PClose:
+			// the proxy is shut down while the (delayed) response is on its way - or, PCloseEarly, while the origin is still
+			// working on it: the exchange in flight finishes (in the second case the proxy announces the close in the head)
+			var g *vrt.Gate
+			if sc.PCloseEarly {
+				g = w.Gate("rt:0")
+			}
+			ths = append(ths, vrt.GoNamed("client0", func() { client(0, nil) }))
+			vrt.WaitQuiescent()
+			ths = append(ths, vrt.GoNamed("pclose", func() { w.Proxy.Close() }))
+			if g != nil {
+				vrt.WaitQuiescent()
+				g.Open()
+			}
 		case sc.Conc:
 			for i := 0; i < sc.Conns; i++ {
 				i := i
@@ -441,7 +620,7 @@ func run(sc scenario) (body func(), check func(r *vrt.Result) []finding) {
 			}
 		}
 		deadline := vrt.Now() + 30*time.Minute
-		for !allDone(obs) || len(obs) < len(ths)-boolInt(sc.Reconf == "accepted-in-flight" || sc.Reconf == "accepted-during-upload") {
+		for !allDone(obs) || len(obs) < len(ths)-boolInt(sc.Reconf == "accepted-in-flight" || sc.Reconf == "accepted-during-upload" || sc.Reconf == "rejected-in-flight" || sc.PClose) {
 			vrt.WaitQuiescent()
 			if vrt.Now() > deadline {
 				break
@@ -449,6 +628,18 @@ func run(sc scenario) (body func(), check func(r *vrt.Result) []finding) {
 			vrt.Sleep(time.Second)
 		}
 		vrt.WaitQuiescent()
+		settle := sc.Abort > 0
+		for _, sh := range sc.Shapes {
+			for _, h := range sh.Halts {
+				settle = settle || h.Byte == int64(sc.R+sc.N)
+			}
+		}
+		if settle {
+			// the proxy may still be pausing - in the response the client walked away from, in a halt placed right after the
+			// last byte: give it (virtual) time to come back and close the connection
+			vrt.Sleep(5 * time.Minute)
+			vrt.WaitQuiescent()
+		}
 		bucketsAfterClose = countBuckets()
 		for i, o := range obs {
 			vrt.Log("conn %d: status=%d body=%d complete=%v err=%q elapsed=%v", i, o.status, len(o.body), o.complete, o.err, o.end-o.start)
@@ -458,12 +649,19 @@ func run(sc scenario) (body func(), check func(r *vrt.Result) []finding) {
 	check = func(r *vrt.Result) []finding {
 		var out []finding
 		add := func(sig, format string, a ...interface{}) { out = append(out, finding{sig, fmt.Sprintf(format, a...)}) }
+		// slack of the bounds from above: one drain interval (the engine lets virtual time advance to the next timer when
+		// a thread polls twice without anybody writing in between; with the nested shaped connections of an intercepted
+		// TLS tunnel that happens once per layer)
+		slack := time.Second
+		if sc.Via == "mitm-tls" {
+			slack = 2 * time.Second
+		}
 		if r.Outcome != "ok" {
 			add("outcome:"+r.Outcome+":"+sc.Reconf, "execution ended with %s: %s", r.Outcome, firstLine(r.Panic))
 			return out
 		}
 		if cfgStatus != 200 {
-			add("valid_config_rejected", "configuration %s was answered %d", configJSON(sc.Shapes, sc.Latency), cfgStatus)
+			add("valid_config_rejected", "configuration %s was answered %d", configOf(sc), cfgStatus)
 			return out
 		}
 		full := pattern(sc.R + sc.N)
@@ -481,7 +679,7 @@ func run(sc scenario) (body func(), check func(r *vrt.Result) []finding) {
 			}
 		}
 		cls := fmt.Sprintf("n=%s:r=%s", sizeClass(sc.N), map[bool]string{true: "0", false: ">0"}[sc.R == 0])
-		if sc.Reconf == "rejected-before" && reconfStatus != 400 {
+		if strings.HasPrefix(sc.Reconf, "rejected") && reconfStatus != 400 {
 			add("invalid_config_accepted", "invalid configuration %s was answered %d", sc.Reconf2, reconfStatus)
 		}
 		if strings.HasPrefix(sc.Reconf, "accepted") && reconfStatus != 200 {
@@ -502,6 +700,18 @@ func run(sc scenario) (body func(), check func(r *vrt.Result) []finding) {
 						break
 					}
 					r := o.seq[k]
+					if k < len(sc.SeqFail) && sc.SeqFail[k] {
+						// the round trip failed: the proxy answers 502 itself; the client receives that response whole,
+						// whatever the previous response on the connection left behind
+						if r.status != 502 || !r.complete {
+							add(fmt.Sprintf("keepalive:resp%d_upstream_failure:error_response_lost", k+1), "connection %d response %d: the round trip failed, the client got status %d complete=%v err=%q instead of the proxy's 502", i, k+1, r.status, r.complete, r.err)
+							break
+						}
+						if r.elapsed > 2*time.Duration(sc.Latency)*time.Millisecond+slack && !(k == 0 && match && active != nil) {
+							add(fmt.Sprintf("keepalive:resp%d_upstream_failure:delayed", k+1), "connection %d response %d (the proxy's own 502) took %v", i, k+1, r.elapsed)
+						}
+						continue
+					}
 					var e expect
 					if match && active != nil {
 						e = model(active, counts, sc.N, sc.R)
@@ -517,8 +727,17 @@ func run(sc scenario) (body func(), check func(r *vrt.Result) []finding) {
 					if r.elapsed < e.minDelay {
 						add(tag+":too_fast", "connection %d response %d took %v, configured delays add up to at least %v", i, k+1, r.elapsed, e.minDelay)
 					}
-					if !(match && active != nil) && r.elapsed > time.Duration(sc.Latency)*time.Millisecond+time.Second {
+					// (the latency is slept once per direction when the connection starts: before its first read and before its first write)
+					if !(match && active != nil) && r.elapsed > 2*time.Duration(sc.Latency)*time.Millisecond+slack {
 						add(tag+":delayed", "connection %d response %d (URL matches no shape) took %v", i, k+1, r.elapsed)
+					}
+					if k > 0 && sc.Latency > 0 && r.body == e.bodyLen && (!(match && active != nil) || len(active.Throttles) == 0 && active.MaxBW == 0) && r.elapsed > e.maxDelay+slack {
+						add(tag+":latency_repeated", "connection %d response %d took %v: the connection's initial latency (%d ms) was slept again for a later response", i, k+1, r.elapsed, sc.Latency)
+					}
+					// (a later response on a connection inherits the bandwidth the previous one ended with - the statement is
+					// silent about that - so only shapes without throttles and bandwidths are judged from above here)
+					if match && active != nil && len(active.Throttles) == 0 && active.MaxBW == 0 && r.body == e.bodyLen && r.elapsed > 2*time.Duration(sc.Latency)*time.Millisecond+e.maxDelay+slack {
+						add(tag+":delay_exceeds_configuration", "connection %d response %d took %v of virtual time; the halts that apply explain at most %v", i, k+1, r.elapsed, e.maxDelay)
 					}
 					if e.cut {
 						if k+1 < len(o.seq) {
@@ -528,8 +747,8 @@ func run(sc scenario) (body func(), check func(r *vrt.Result) []finding) {
 					}
 				}
 			}
-			if bucketsAfterClose > bucketsAfterCfg {
-				add("buckets_leaked_after_close", "%d bucket drain threads created for connections are still alive after the connections were closed", bucketsAfterClose-bucketsAfterCfg)
+			if bucketsAfterClose > bucketsAfterCfg && !strings.HasPrefix(sc.Reconf, "accepted") {
+				add("buckets_leaked_after_close"+map[bool]string{true: ":" + sc.Via}[sc.Via != ""], "%d bucket drain threads created for connections are still alive after the connections were closed", bucketsAfterClose-bucketsAfterCfg)
 			}
 			return out
 		}
@@ -540,6 +759,7 @@ func run(sc scenario) (body func(), check func(r *vrt.Result) []finding) {
 				continue
 			}
 			var e expect
+			latMs := sc.Latency
 			switch {
 			case strings.HasPrefix(sc.Reconf, "accepted") && i == 0:
 				// accepted before the new configuration: the new actions must not apply; the old ones may or may not
@@ -563,21 +783,48 @@ func run(sc scenario) (body func(), check func(r *vrt.Result) []finding) {
 				if len(o.body) != sc.N && !(eo.cut && len(o.body) == eo.bodyLen) && !(en.cut && len(o.body) == en.bodyLen) {
 					add("old_connection_body_wrong:"+sc.Reconf, "connection accepted before the reconfiguration received %d body bytes (full %d, old cut %v@%d)", len(o.body), sc.N, eo.cut, eo.bodyLen)
 				}
+				// neither do the halts, throttles and the latency of the new configuration (the old ones may)
+				oldMax := eo.maxDelay
+				if active != nil {
+					// (the old close action may have been dropped while the old throttles went on to the end of the body)
+					uncut := *active
+					uncut.Closes = nil
+					if m := model(&uncut, copyCounts(counts), sc.N, sc.R).maxDelay; m > oldMax {
+						oldMax = m
+					}
+				}
+				if el := o.end - o.start; el > 2*time.Duration(sc.Latency)*time.Millisecond+oldMax+time.Second {
+					add("new_config_delayed_old_connection:"+sc.Reconf, "connection accepted before the reconfiguration took %v of virtual time; the configuration it was accepted under explains at most %v", el, 2*time.Duration(sc.Latency)*time.Millisecond+oldMax+time.Second)
+				}
 				continue
 			case strings.HasPrefix(sc.Reconf, "accepted") && i == 1:
 				var cr struct {
-					Trafficshape struct{ Shapes []shape }
+					Trafficshape struct {
+						Shapes  []shape
+						Default struct{ Latency int64 }
+					}
 				}
 				json.Unmarshal([]byte(sc.Reconf2), &cr)
-				ns := &cr.Trafficshape.Shapes[0]
+				latMs = cr.Trafficshape.Default.Latency
+				var ns *shape
+				for k := range cr.Trafficshape.Shapes {
+					if cr.Trafficshape.Shapes[k].Regex == matchURL {
+						ns = &cr.Trafficshape.Shapes[k]
+					}
+				}
 				nc := map[string]int64{}
-				for k, h := range ns.Halts {
-					nc[fmt.Sprintf("halt%d", k)] = h.Count
+				if ns != nil {
+					for k, h := range ns.Halts {
+						nc[fmt.Sprintf("halt%d", k)] = h.Count
+					}
+					for k, c := range ns.Closes {
+						nc[fmt.Sprintf("close%d", k)] = c.Count
+					}
 				}
-				for k, c := range ns.Closes {
-					nc[fmt.Sprintf("close%d", k)] = c.Count
+				e = model(ns, nc, sc.N, sc.R) // (no shape for the URL any more: the response is not shaped at all)
+				if ns == nil && o.done && o.end-o.start > 2*time.Duration(latMs)*time.Millisecond+time.Second {
+					add("removed_shape_still_applied:delay", "connection accepted after a reconfiguration without a shape for its URL took %v", o.end-o.start)
 				}
-				e = model(ns, nc, sc.N, sc.R)
 			case sc.Conc:
 				// count consumption order is schedule dependent: judge the aggregate below, per connection accept either outcome
 				e1 := model(active, copyCounts(counts), sc.N, sc.R)
@@ -598,12 +845,42 @@ func run(sc scenario) (body func(), check func(r *vrt.Result) []finding) {
 			if sc.R > 0 {
 				wantStatus = 206
 			}
+			if o.tunnel != "" {
+				add("tunnel_failed:"+sc.Via, "connection %d: %s", i, o.tunnel)
+				continue
+			}
 			if o.status != wantStatus {
 				add("head_lost:"+cls, "connection %d: status %d (err %q), want %d", i, o.status, o.err, wantStatus)
 				continue
 			}
+			if sc.Abort > 0 {
+				continue // the client went away: only the release of the connection's resources is judged (below)
+			}
 			if !bytes.HasPrefix(full[sc.R:], o.body) {
 				add("bytes_altered:"+cls, "connection %d: body is not a prefix of what the proxy wrote", i)
+			}
+			if sc.Chunked {
+				// offsets count the bytes after the head as they are on the wire (chunk framing included): a close action
+				// inside the body leaves exactly k-r of them; without one the body arrives complete
+				switch {
+				case e.cut && e.bodyLen < sc.N:
+					if o.wire != e.bodyLen || o.complete {
+						add("chunked:cut_position_wrong:"+cls, "connection %d: %d bytes arrived after the head (complete=%v), the close action at %d of a response starting at %d leaves exactly %d", i, o.wire, o.complete, sc.R+e.bodyLen, sc.R, e.bodyLen)
+					}
+				case !e.cut:
+					if len(o.body) != sc.N || !o.complete {
+						add("chunked:body_truncated:"+cls, "connection %d: received %d of %d body bytes (complete=%v, err %q) although no close action applies", i, len(o.body), sc.N, o.complete, o.err)
+					}
+				}
+			} else if o.wire != len(o.body) {
+				add("bytes_altered:"+cls, "connection %d: %d bytes arrived after the head for a body of %d", i, o.wire, len(o.body))
+			}
+			if sc.Chunked {
+				el := o.end - o.start
+				if (e.cut && e.bodyLen < sc.N && o.wire == e.bodyLen || !e.cut && o.complete) && el < e.minDelay {
+					add("halt_delay_too_short:"+cls, "connection %d: response took %v of virtual time, the halts that applied require at least %v", i, el, e.minDelay)
+				}
+				continue
 			}
 			if len(o.body) != e.bodyLen {
 				kind := "cut_position_wrong"
@@ -620,18 +897,31 @@ func run(sc scenario) (body func(), check func(r *vrt.Result) []finding) {
 			el := o.end - o.start
 			// halts are sequential sleeps and add up; a throttle bounds the time its bytes need (time spent in a halt
 			// counts towards the drain intervals, so the two bounds are separate, not summed)
-			lat := time.Duration(sc.Latency) * time.Millisecond
+			lat := time.Duration(latMs) * time.Millisecond
 			if len(o.body) == e.bodyLen && el < e.minDelay+lat {
 				add("halt_delay_too_short:"+cls, "connection %d: response took %v of virtual time, the halts that applied (plus latency) require at least %v", i, el, e.minDelay+lat)
 			}
 			if len(o.body) == e.bodyLen && el < e.thrDelay+lat {
 				add("throttle_delay_too_short:"+cls, "connection %d: response took %v of virtual time, the throttles require at least %v", i, el, e.thrDelay+lat)
 			}
-			if sc.Reconf == "rejected-before" && len(o.body) == e.bodyLen && el > lat+e.minDelay+e.thrDelay+time.Second {
+			if strings.HasPrefix(sc.Reconf, "rejected") && len(o.body) == e.bodyLen && el > lat+e.minDelay+e.thrDelay+time.Second {
 				add("rejected_config_took_effect:delay", "connection %d after a rejected configuration took %v of virtual time; the active configuration explains at most %v", i, el, lat+e.minDelay+e.thrDelay+time.Second)
 			}
-			if active == nil && el > time.Duration(sc.Latency)*time.Millisecond+time.Second {
+			if active == nil && sc.DefUp == 0 && sc.DefDown == 0 && el > 2*time.Duration(sc.Latency)*time.Millisecond+slack {
 				add("non_matching_delayed", "connection %d to a non-matching URL took %v", i, el)
+			}
+			// nothing but the configuration delays a response: actions whose count is used up, that lie outside the bytes of
+			// this response or behind a close action, and throttles outside their interval, add nothing (the latency is
+			// slept once per direction)
+			if active != nil && sc.DefUp == 0 && sc.DefDown == 0 && len(o.body) == e.bodyLen && el > 2*lat+e.maxDelay+slack {
+				add("delay_exceeds_configuration:"+cls, "connection %d: response took %v of virtual time; the halts that apply (%v), the throttled intervals and the bandwidths explain at most %v", i, el, e.minDelay, 2*lat+e.maxDelay+slack)
+			}
+			if sc.DefUp > 0 && sc.DefUp == sc.DefDown && active == nil && len(o.body) == sc.N {
+				// a finite default bandwidth: head and body of an unshaped response pass through the listener's buckets (two of them,
+				// each drained once a second)
+				if min := time.Duration((float64(o.headLen+sc.N)/float64(2*sc.DefUp) - 1) * float64(time.Second)); el < min {
+					add("default_bandwidth_ignored", "connection %d: %d bytes took %v of virtual time under a default bandwidth of %d bytes/s", i, o.headLen+sc.N, el, sc.DefUp)
+				}
 			}
 		}
 		if sc.Conc && active != nil {
@@ -667,9 +957,10 @@ func run(sc scenario) (body func(), check func(r *vrt.Result) []finding) {
 				}
 			}
 		}
-		// (reconfiguration scenarios create new per-shape buckets half way: not connection resources, not judged here)
-		if bucketsAfterClose > bucketsAfterCfg && !strings.HasPrefix(sc.Reconf, "accepted") {
-			add("buckets_leaked_after_close", "%d bucket drain threads created for connections are still alive after the connections were closed", bucketsAfterClose-bucketsAfterCfg)
+		// (configurations arriving half way - accepted, or rejected after a part of them was set up - create per-shape
+		// buckets of their own: not connection resources, not judged here)
+		if bucketsAfterClose > bucketsAfterCfg && (sc.Reconf == "" || sc.Reconf == "rejected-before") {
+			add("buckets_leaked_after_close"+map[bool]string{true: ":" + sc.Via}[sc.Via != ""], "%d bucket drain threads created for connections are still alive after the connections were closed", bucketsAfterClose-bucketsAfterCfg)
 		}
 		return out
 	}
@@ -735,7 +1026,15 @@ func scenarios(tier string) []scenario {
 				}
 			}
 			offs[0] = true
+			// (in ascending order: every worker process enumerates the scenarios itself and takes every 16th, so the order
+			// must be the same in all of them - ranging over the map directly gave each worker its own random order, i.e.
+			// some scenarios ran twice and others not at all)
+			var ks []int64
 			for k := range offs {
+				ks = append(ks, k)
+			}
+			sort.Slice(ks, func(i, j int) bool { return ks[i] < ks[j] })
+			for _, k := range ks {
 				for _, ch := range chunks {
 					if tier == "quick" && ch != 0 && (k%2 == 1) {
 						continue
@@ -817,7 +1116,8 @@ func scenarios(tier string) []scenario {
 		out = append(out, scenario{Name: "count-conc", Shapes: []shape{{Regex: matchURL, Closes: []closeAct{{Byte: 100, Count: cnt}}}}, N: 600, Match: true, Conns: 2, Conc: true, Bound: 1})
 		// the same with all handlers released into their shaped writes at the same instant (check-then-act windows
 		// on the shared action count are then one preemption away)
-		out = append(out, scenario{Name: "count-conc-barrier", Shapes: []shape{{Regex: matchURL, Closes: []closeAct{{Byte: 100, Count: cnt}}}}, N: 600, Match: true, Conns: 2, Conc: true, Barrier: true, Bound: 2})
+		// (quick: one deviation, like the three-connection variant below; two in thorough)
+		out = append(out, scenario{Name: "count-conc-barrier", Shapes: []shape{{Regex: matchURL, Closes: []closeAct{{Byte: 100, Count: cnt}}}}, N: 600, Match: true, Conns: 2, Conc: true, Barrier: true, Bound: 1, TBound: 2})
 		if cnt > 0 {
 			out = append(out, scenario{Name: "count-conc-barrier", Shapes: []shape{{Regex: matchURL, Closes: []closeAct{{Byte: 100, Count: cnt}}}}, N: 600, Match: true, Conns: 3, Conc: true, Barrier: true, Bound: 1})
 			out = append(out, scenario{Name: "haltcount-conc-barrier", Shapes: []shape{{Regex: matchURL, Halts: []halt{{Byte: 100, Dur: 4000, Count: cnt}}}}, N: 600, Match: true, Conns: 2, Conc: true, Barrier: true, Bound: 1, TBound: 2})
@@ -877,6 +1177,7 @@ func scenarios(tier string) []scenario {
 	for _, b := range bad {
 		out = append(out, scenario{Name: "invalid-config", Shapes: base, N: 600, Match: true, Conns: 1, Reconf: "rejected-before", Reconf2: b})
 	}
+	out = append(out, auditScenarios(tier)...)
 	return out
 }
 
@@ -949,8 +1250,19 @@ func main() {
 				}
 			}
 			body, check := run(sc)
+			t0 := time.Now()
+			scSigs := map[string]bool{}
+			nontrivial := false
 			st := vrt.Explore(vrt.ExploreConfig{Bound: b, Deadline: time.Now().Add(per), Config: vrt.Config{MaxPoints: 2000000, MaxVTime: 2 * time.Hour}}, body, func(prefix []int, r *vrt.Result) bool {
+				if !nontrivial {
+					for _, l := range r.Log {
+						if strings.Contains(l, "complete=false") || strings.Contains(l, "reconf=400") || strings.Contains(l, "elapsed=") && !strings.Contains(l, "elapsed=0s") {
+							nontrivial = true
+						}
+					}
+				}
 				for _, f := range check(r) {
+					scSigs[f.Sig] = true
 					if !seen[f.Sig] {
 						seen[f.Sig] = true
 						if err := vrt.Confirm(vrt.Config{MaxPoints: 2000000, MaxVTime: 3 * time.Hour}, r, body, 3); err != nil {
@@ -967,7 +1279,16 @@ func main() {
 				fmt.Fprintln(os.Stderr, "ENGINE ERROR:", st.EngineError)
 				os.Exit(2)
 			}
+			if f := os.Getenv("VERIF_STATS"); f != "" {
+				if fh, err := os.OpenFile(f, os.O_APPEND|os.O_CREATE|os.O_WRONLY, 0o644); err == nil {
+					fmt.Fprintf(fh, "%-28s execs=%-7d points=%-9d bound=%d done=%d exhaustive=%v wall=%v n=%d r=%d chunk=%d conns=%d via=%s sigs=%v\n", sc.Name, st.Execs, st.Points, b, st.BoundCompleted, st.Exhaustive, time.Since(t0).Round(time.Millisecond), sc.N, sc.R, sc.Chunk, sc.Conns, sc.Via, scSigs)
+					fh.Close()
+				}
+			}
 			out.Counters["scenarios"]++
+			if nontrivial {
+				out.Counters["distinct_nontrivial"]++
+			}
 			out.Counters["scenarios_"+sc.Name]++
 			out.Counters["executions"] += int64(st.Execs)
 			out.Counters["points"] += st.Points
@@ -1014,8 +1335,11 @@ func main() {
 	rep.Coverage["transitions"] = rep.Counter("points")
 	rep.Coverage["traces_validated_against_impl"] = rep.Counter("executions")
 	rep.Coverage["exhaustive"] = rep.Incomplete == ""
-	rep.Coverage["bounds"] = fmt.Sprintf("%d scenarios: close actions at offsets {0,1,n-1,n,n+1,5000,6000}+range start x sizes {0,1,600,4095,4096,4097,10000} x range starts {0,1,4096} x body chunkings; halts/throttles (single, adjacent, gap, max bandwidth), latency, non-matching URL; counts {1,2,-1} over sequential and concurrent connections; reconfiguration after accept / in flight; 35 invalid configurations (incl. valid defaults with invalid shapes); shared global bandwidth over sequential/concurrent connections; default schedule, <=1-2 (quick) / <=2-3 (thorough) deviations for concurrent scenarios (per-scenario bound chosen so that it completes)", len(scen))
+	rep.Coverage["evaluations"] = rep.Counter("executions")
+	rep.Coverage["distinct_nontrivial"] = rep.Counter("distinct_nontrivial")
+	rep.Coverage["rule"] = "scenarios are listed by scenarios()+auditScenarios() (finite products of shape sets x sizes x range starts x write sizes x paths x histories, nothing sampled); every schedule of a scenario within its deviation bound is executed; a scenario is non-trivial when in at least one execution shaping visibly acted: a connection was cut, virtual time passed between request and end of response, or a configuration was rejected"
+	rep.Coverage["bounds"] = fmt.Sprintf("%d scenarios: close actions at offsets {0,1,n-1,n,n+1,5000,6000}+range start x sizes {0,1,600,4095,4096,4097,10000} x range starts {0,1,4096} x body chunkings, next to the 4096-byte flush and the 32768-byte copies of a 70000-byte body; halts at {r-1,r,r+1,r+n-1,r+n,r+n+1,r+4500}, equal offsets, counts over sequential connections; throttles (single, adjacent, gap, unsorted, three, around the range start, tiny bandwidths, max bandwidth), latency, non-matching URL; Content-Length and chunked framing; plain, CONNECT+clear and CONNECT+TLS (MITM) paths, blind CONNECT tunnels (also after shaped responses on the same connection); default bandwidths; counts {1,2,-1} over sequential and concurrent connections; reconfiguration after accept / during upload / in flight / between two requests, with closes, delays, dropped shapes; 67+3 invalid configurations before the accept, 3 after the accept and in flight; client leaving mid-response, proxy closing mid-response; shared global bandwidth over sequential/concurrent connections; default schedule, <=1 (quick) / <=2-3 (thorough) deviations for concurrent and in-flight scenarios (per-scenario bound chosen so that it completes)", len(scen))
 	rep.Coverage["explanation"] = "each execution runs the real proxy.go + trafficshape over simnet with virtual time; bucket spin loops are parked until the epoch changes (a drain tick)"
-	rep.Assumptions = []string{"virtual time only advances at quiescence; ticker phase is fixed by bucket creation time", "Content-Length framing only"}
+	rep.Assumptions = []string{"virtual time only advances at quiescence; ticker phase is fixed by bucket creation time; delays are judged with a slack of one drain interval per bucket plus 1 s", "real crypto/tls runs inside the simulation for the MITM scenarios (its internal locks are not scheduling points)"}
 	rep.Finish()
 }
